@@ -30,6 +30,7 @@ type Unit struct {
 }
 
 type UnitResult struct {
+	Lemmas   []string
 	Unit     string
 	Obs      []*Oblig
 	Problems []string
@@ -237,6 +238,32 @@ func verifyUnit(ld *Loader, db *ContractDB, specs *SpecLib, u *Unit) (res *UnitR
 					panic(r)
 				}
 			}
+		}
+		// lemma library: opted-in lemmas become axioms for every list/trace sort in use
+		for _, ln := range splitList(x.opts["lemmas"]) {
+			found := false
+			for _, so := range sortedKeys(x.d.sorts) {
+				switch x.d.sorts[so].Kind {
+				case "list":
+					if x.d.useLemma("List", ln, so) {
+						found = true
+					}
+				case "trace":
+					if x.d.useLemma("Trace", ln, so) {
+						found = true
+					}
+				}
+			}
+			if _, ok := specs.Templates["lemma:List:"+ln]; ok {
+				found = true
+			}
+			if _, ok := specs.Templates["lemma:Trace:"+ln]; ok {
+				found = true
+			}
+			if !found {
+				x.problems = append(x.problems, "unknown lemma "+ln)
+			}
+			res.Lemmas = append(res.Lemmas, ln)
 		}
 		res.Obs = x.obs
 		res.Problems = x.problems
@@ -810,6 +837,33 @@ func (x *Exec) lemmaUnit(u *Unit) {
 		return
 	}
 	x.oblige(st, "lemma", u.Lemma.Name, t, nil, u.Lemma.Expr.Src)
+}
+
+// lemmaProofs: one induction obligation per library lemma used by a check.
+func lemmaProofs(specs *SpecLib, names []string, props []string) []*Oblig {
+	var out []*Oblig
+	for _, ln := range names {
+		for _, kind := range []string{"List", "Trace"} {
+			text, ok := specs.Templates["lemma:"+kind+":"+ln]
+			if !ok {
+				continue
+			}
+			d := NewDecls(specs)
+			e := d.Uninterp("E")
+			var so string
+			if kind == "List" {
+				so = d.ListOf(e)
+				text = strings.ReplaceAll(text, "{L}", so)
+			} else {
+				so = d.TrOf(e)
+				text = strings.ReplaceAll(text, "{T}", so)
+			}
+			text = strings.ReplaceAll(text, "{E}", e)
+			out = append(out, &Oblig{Name: "specs.lemma." + ln + ":speclemma", Kind: "speclemma", Props: props, Goal: Term{S: text, Sort: "Bool"},
+				Src: "library lemma " + ln + " follows from the definitions (structural induction)", Induct: true, Prelude: d.Prelude()})
+		}
+	}
+	return out
 }
 
 // ---------------------------------------------------------------------------
